@@ -44,8 +44,8 @@ type Resource struct {
 
 type Resolver struct {
 	Draft     int
-	Docs      map[string]*DocInfo  // by retrieval URI
-	Resources map[string]*Resource // by URI without fragment
+	Docs      map[string]*DocInfo             // by retrieval URI
+	Resources map[string]*Resource            // by URI without fragment
 	Load      func(uri string) ([]byte, bool) // loader universe: retrieval URI -> document text
 	LoadCount map[string]int
 	// LoadFail lists URIs for which the loader returns an error.
